@@ -1,0 +1,14 @@
+//go:build verif
+// +build verif
+
+package hyper
+
+import "github.com/bbva/qed/balloon/cache"
+
+// VerifCache exposes the in-memory cache of the top levels of the tree
+// to the runtime monitors in /verif (build tag "verif" only).
+func (t *HyperTree) VerifCache() cache.ModifiableCache {
+	t.RLock()
+	defer t.RUnlock()
+	return t.cache
+}
